@@ -244,7 +244,7 @@ def run(ck):
     ck.assumptions += [
         "M: the transition system of Model.lean is tied to MFrontLock.cxx by trace validation: hooks (guard TFEL_VERIF_HOOKS) log one event per atomic section; every history logged by real processes must be accepted by the model and the observed sem_getvalue / overlap detector must agree (differential testing over the histories run, not proof)",
         "POSIX named-semaphore semantics are modelled, not verified: sem_open(O_CREAT,1) initialises only on creation, sem_wait/sem_post atomic, the semaphore persists across processes, nobody else posts or unlinks it; reboot (/dev/shm cleared) restarts the history",
-        "processes are single-threaded in their use of the lock; sem_wait interrupted by a signal (EINTR -> exception) is not modelled; a process killed inside a critical section leaves the lock taken (deadlock, not a mutual-exclusion failure) - stated by the theorems' hypotheses",
+        "processes are single-threaded in their use of the lock; sem_wait interrupted by a signal is the model step `intr` (count unchanged, nothing acquired; the code may raise or retry, never enter); a process killed inside a critical section leaves the lock taken (deadlock, not a mutual-exclusion failure) - stated by the theorems' hypotheses",
         "the log order is the kernel's order of O_APPEND writes: `lock` is logged after sem_wait returned and `unlock` before sem_post, so the log is a linearisation of the semaphore operations",
         hook_note,
     ]
